@@ -53,6 +53,7 @@ def run(chk):
     G('operators', 'address operators', lambda: addr_ops(chk))
     G('operators', 'page / frame operators', lambda: page_ops(chk))
     G('ranges', 'ranges', lambda: ranges(chk))
+    G('ranges', 'range constructors', lambda: range_ctors(chk))
     report_wraps(chk)
     if chk.tier == 'thorough':
         G('release', 'release-profile cross-check', lambda: release_crosscheck(chk))
@@ -234,6 +235,22 @@ RANGES = [
     (FRM + 'PhysFrameRange', FRM + 'PhysFrame', PA, 'phys', False),
     (FRM + 'PhysFrameRangeInclusive', FRM + 'PhysFrame', PA, 'phys', True),
 ]
+
+
+def range_ctors(chk):
+    """Page::range / range_inclusive (and the PhysFrame ones) build the range from (start, end) in that order"""
+    I = chk.I
+    for RT, ET, AT, mk, incl in RANGES:
+        fn_ = '%s::<S>::%s' % (ET, 'range_inclusive' if incl else 'range')
+        S = size_ty('Size4KiB')
+        a = I.sym_value(adt(ET, S), 'a')
+        b = I.sym_value(adt(ET, S), 'b')
+        if fn_ not in I.fn:
+            chk.unproven('range-agreement', fn_.split('::', 3)[-1], 'constructor not found (anchor lost)')
+            continue
+        outs = run_case(chk, fn_, [a, b], State(), {'S': S})
+        ok = len(outs) == 1 and outs[0].kind == 'ret' and isinstance(outs[0].val, Struct) and outs[0].val.name == RT and same(outs[0].val.fields[0], a) and same(outs[0].val.fields[1], b)
+        chk.ob('range-agreement', '%s::%s(start, end) = %s { start, end }' % (ET.split('::')[-1], fn_.split('::')[-1], RT.split('::')[-1]), ok, 'paths %r' % (outs,), fn_site(I, fn_))
 
 
 def ranges(chk):
